@@ -589,4 +589,49 @@ class AOverChild(AOver):
                 ctx.violation("dump-differs:undecorated-child", f"{name}: dump {d!r:.200}, expected {good_d!r}", {"source": source})
 
 
-DIRECTED = {"undecorated-children": _undecorated_children, "attrs-handwritten-init": _attrs_handwritten_init, "pydantic-one-parameter": _pydantic_one_parameter, "generic-namedtuple-one-parameter": _directed, "initvar-of-type-variable": _initvar, "inherited-init-false-fields": _init_false_fields}
+def _iterable_models(ctx):
+    """A container-like model - one type parameter and an __iter__ over its items (Page[T]) - is a model for every kind, bare or
+    parametrised (defect #97; NamedTuple and pydantic had been exempted from the iterable provider before, #68)."""
+    mod = types.ModuleType(f"vlib_c16_it{next(_n)}")
+    sys.modules[mod.__name__] = mod
+    source = """
+from typing import Generic, TypeVar, List
+from dataclasses import dataclass
+import attrs
+T = TypeVar('T')
+@dataclass
+class Bag(Generic[T]):
+    items: List[T]
+    def __iter__(self):
+        return iter(self.items)
+@attrs.define
+class ABag(Generic[T]):
+    items: List[T]
+    def __iter__(self):
+        return iter(self.items)
+@dataclass
+class Shelf(Generic[T]):
+    bags: List[Bag[T]]
+"""
+    try:
+        exec(compile(source, f"<{mod.__name__}>", "exec", dont_inherit=True), mod.__dict__)  # noqa: S102
+    except ImportError:
+        ctx.count("attrs_missing")
+        return
+    for label, hint, good_d, bad_d in (("Bag[int]", mod.Bag[int], {"items": [1]}, {"items": ["s"]}), ("Bag", mod.Bag, {"items": [1, "x"]}, {"items": 5}),
+                                       ("ABag[int]", mod.ABag[int], {"items": [1]}, {"items": ["s"]}), ("Shelf[str]", mod.Shelf[str], {"bags": [{"items": ["a"]}]}, {"bags": [{"items": [1]}]})):
+        ok_, ko_ = attempt(Retort().load, good_d, hint), attempt(Retort().load, bad_d, hint)
+        ctx.evaluated(("directed-iterable-model", label), nontrivial=True)
+        ctx.count("conforming_loads")
+        ctx.count("nonconforming_loads")
+        if ok_.kind != "ok":
+            ctx.violation("conforming-data-rejected:iterable-model", f"{label}: {good_d!r} -> {ok_!r:.250}", {"source": source})
+            continue
+        if ko_.kind == "ok":
+            ctx.violation("other-substitution-accepted:iterable-model", f"{label}: {bad_d!r} accepted", {"source": source})
+        d = attempt(Retort().dump, ok_.value, hint)
+        if d.kind != "ok" or not _dump_eq(d.value, good_d):
+            ctx.violation("dump-differs:iterable-model", f"{label}: dump {d!r:.200}, expected {good_d!r}", {"source": source})
+
+
+DIRECTED = {"iterable-models": _iterable_models, "undecorated-children": _undecorated_children, "attrs-handwritten-init": _attrs_handwritten_init, "pydantic-one-parameter": _pydantic_one_parameter, "generic-namedtuple-one-parameter": _directed, "initvar-of-type-variable": _initvar, "inherited-init-false-fields": _init_false_fields}
